@@ -71,7 +71,7 @@ def leaf_mix(p_src=3, p_lit=0):
     return st.one_of(*alts)
 
 
-def make_env(debug=False):
+def make_env(debug=False, onlookers=False):
     err = errors()
     sing = [err.from_message(c) for c in CODES8]
 
@@ -92,8 +92,15 @@ def make_env(debug=False):
     class RaisingObject(object):        # a callable object and a functools.partial: host functions that have no __name__
         def __call__(self, *a):
             raise err.NUM
-    return Env(vars=vars_, cells=cells, ranges={'A1:B2': [7, 8]}, funcs={'ERET': lambda k: sing[k], 'ERAISE': eraise, 'ID': lambda x: x, 'HOSTERR': lambda: err.XLError('no such row'),
-                                                                            'PRAISE': functools.partial(raise_code, '#REF!'), 'ORAISE': RaisingObject()}, debug=debug)
+    vars_['v_nan'] = float('nan')
+    env = Env(vars=vars_, cells=cells, ranges={'A1:B2': [7, 8]}, funcs={'ERET': lambda k: sing[k], 'ERAISE': eraise, 'ID': lambda x: x, 'HOSTERR': lambda: err.XLError('no such row'),
+                                                                           'PRAISE': functools.partial(raise_code, '#REF!'), 'ORAISE': RaisingObject()}, debug=debug)
+    if onlookers:
+        # somebody listens (a logger, a dependency tracker) and answers nothing: that changes no outcome
+        env.P.on('callFunction', lambda name, args, setter: None)
+        env.P.on('callVariable', lambda name, setter: None)
+        env.P.on('callCellValue', lambda cell, setter: None)
+    return env
 
 
 REF_ENV = {'vars': {'v_a': 4, 'v_b': 9, 'v_arr': [3, 4, 5]}, 'cells': {'B2': 6}, 'ranges': {'A1:B2': [7, 8]}, 'funcs': {}}
@@ -152,7 +159,7 @@ def check_propagation(case):
     except Unspecified:
         raise Skip('reference-unspecified')
     text = gf.render(t, case['style'])
-    r = make_env(case.get('debug', False)).parse(text)
+    r = make_env(case.get('debug', False), onlookers=len(text) % 2 == 0).parse(text)
     expect_top(text + (' (debug on)' if case.get('debug') else ''), r, want, 'formula')
 
 
@@ -182,7 +189,7 @@ def check_trapping(case):
         text = 'OR(ISERR(%s),ISNA(%s))=ISERROR(%s)' % (X, X, X)
     else:
         text = '%s(%s)' % (trap, X)
-    r = make_env(case.get('debug', False)).parse(text)
+    r = make_env(case.get('debug', False), onlookers=len(text) % 2 == 0).parse(text)
     if case.get('debug'):
         text += ' (debug on)'
     if isinstance(xv, tuple):
@@ -220,6 +227,9 @@ def check_code_text(case):
              ('OR(ISERR(%s),ISNA(%s))=ISERROR(%s)' % (X, X, X), True), ('ISTEXT(%s)' % X, True), ('%s&"a"' % X, code + 'a'), ('%s=%s' % (X, X), True)]
     for text, want in table:
         expect_top(text, env.parse(text), want, 'text %r spelling an error code (%s):' % (code, how))
+    # a NaN from the host is a number that is not a number; it is no error value, and the observers agree about that
+    for text, want in (('ISERROR(v_nan)', False), ('ISERR(v_nan)', False), ('ISNA(v_nan)', False), ('OR(ISERR(v_nan),ISNA(v_nan))=ISERROR(v_nan)', True), ('IFERROR(v_nan,"trapped")&""', 'nan'), ('IFNA(v_nan,"trapped")&""', 'nan')):
+        expect_top(text, env.parse(text), want, 'a NaN handed over by the host:')
 
 
 def enum_code_text(tier, shard, nshards):
@@ -250,7 +260,7 @@ def enum_matrix(tier, shard, nshards):
 
 
 def check_matrix(node):
-    env = make_env(debug=(sum(map(ord, repr(node))) % 3 == 0))       # a third of the matrix with the parser's debug output on
+    env = make_env(debug=(sum(map(ord, repr(node))) % 3 == 0), onlookers=(sum(map(ord, repr(node))) % 2 == 0))       # a third of the matrix with the parser's debug output on
     if node[0] == 'errlit':
         code = node[1]
         for text in (code, '1+' + code, code + '=1', 'IFERROR(%s,1)' % code, 'ISERROR(%s)' % code, '-' + code, '"a"&' + code, 'SUM(1,%s)' % code):
